@@ -81,7 +81,13 @@ def generate(rng, tier, index):
     if index % 4 == 3:
         n_sym = int(specgen.choice(rng, [1, 1, 2, 2, 3]))
         sym_axes = sorted(int(x) for x in rng.choice(3, size=n_sym, replace=False))
-    sym_walls = {a: (-1 if rng.uniform() < 0.75 else 1) for a in sym_axes}
+        # the co-location stencil averages backwards only along x and y, so the edge shared by an x- and a y-plane is the
+        # one place where a doubly mirrored halo cell is read (by H_z): make that pair the usual two-plane case
+        if n_sym == 2 and rng.uniform() < 0.6:
+            sym_axes = [0, 1]
+    sym_walls = {a: (-1 if rng.uniform() < 0.8 else 1) for a in sym_axes}
+    if index % 8 == 7:  # every eighth run is the two-electric-planes-on-x-and-y case, whatever was drawn
+        sym_axes, sym_walls = [0, 1], {0: -1, 1: -1}
     for a in sym_axes:
         ax = "xyz"[a]
         faces[f"min_{ax}"] = {"kind": "none"}
